@@ -93,11 +93,21 @@ def _make_classes_once():
     class SenderD(SenderB):  # third level without names of its own
         pass
 
+    class SenderE:  # no metaclass: names registered at run time with register_signal()
+        def __init__(self, sid, length=1):
+            self.sid = sid
+            self.length = length
+
+        def __len__(self):
+            return self.length
+
+    signals.register_signal(SenderE, ["r1", "s1"])
+
     class Unregistered:
         def __init__(self, sid):
             self.sid = sid
 
-    return SenderA, SenderB, SenderC, SenderD, Unregistered
+    return SenderA, SenderB, SenderC, SenderD, SenderE, Unregistered
 
 
 class _Entry:
@@ -136,19 +146,21 @@ class _Run:
         from urwid import signals  # noqa: PLC0415
 
         self.sig = signals
-        A, B, C, D, U = _make_classes()
-        self.classes = [A, B, C, D]
-        names_of = {A: ["s1", "s2"], B: ["t1", "s1", "s2"], C: ["s1", "u1", "t1", "s2"], D: ["s2", "t1", "s1"]}
+        A, B, C, D, E, U = _make_classes()
+        self.classes = [A, B, C, D, E]
+        names_of = {A: ["s1", "s2"], B: ["t1", "s1", "s2"], C: ["s1", "u1", "t1", "s2"], D: ["s2", "t1", "s1"], E: ["r1", "s1"]}
         order = cfg.get("sender_classes") or [0, 1]
         self.senders = []
         self.sender_names = []
         for i in range(cfg["senders"]):
-            cls = self.classes[order[i % len(order)] % 4]
+            cls = self.classes[order[i % len(order)] % 5]
             falsy = cfg.get("sender_empty", [])
             self.senders.append(cls(i, 0 if i < len(falsy) and falsy[i] else 1))
             self.sender_names.append(names_of[cls])
             if cls in (C, D):
                 res.probe("sender_three_levels_deep")
+            if cls is E:
+                res.probe("sender_registered_at_run_time")
         self.sender_wr = [weakref.ref(s) for s in self.senders]
         self.unreg = U(99)
         self.handlers = [_Handler(self, i) for i in range(cfg["handlers"])]
@@ -575,6 +587,7 @@ class SignalsEngine(Engine):
         "falsy_weak_argument",
         "falsy_sender",
         "sender_three_levels_deep",
+        "sender_registered_at_run_time",
         "weak_died_inside_connect",
         "disconnect_during_emit",
         "earlier_or_self_disconnect_with_later_present",
@@ -596,7 +609,7 @@ class SignalsEngine(Engine):
             "weak_cyclic": [rng.random() < 0.5 for _ in range(n_w)],
             "weak_kind": [rng.choice([0, 0, 0, 1, 2]) for _ in range(n_w)],
             "sender_empty": [rng.random() < 0.15 for _ in range(n_s)],
-            "sender_classes": [rng.randrange(4) for _ in range(n_s)],
+            "sender_classes": [rng.randrange(5) for _ in range(n_s)],
         }
         ops = []
         n_ops = rng.randint(1, 25)
